@@ -576,8 +576,14 @@ func init() {
 		fr.i.assume(fr.i.ts.Bin(OpSle, fr.i.ts.Const(64, 0), s.t))
 		return s
 	}
-	// sync.Pool: Get calls New (or returns nil), Put drops the value
+	// sync.Pool: Put keeps the value, Get returns the value put last (what the runtime does for a
+	// goroutine that stays on its P) or calls New (or returns nil) when the pool is empty
 	externals["(*sync.Pool).Get"] = func(fr *frame, a []value) value {
+		if st := fr.i.pools[a[0].(*value)]; len(st) > 0 {
+			x := st[len(st)-1]
+			fr.i.pools[a[0].(*value)] = st[:len(st)-1]
+			return x
+		}
 		pkg := fr.i.prog.ImportedPackage("sync")
 		pt := pkg.Type("Pool").Object().Type()
 		p := (*a[0].(*value)).(structure)
@@ -596,7 +602,16 @@ func init() {
 		}
 		return call(fr.i, fr, 0, fn, nil)
 	}
-	externals["(*sync.Pool).Put"] = func(fr *frame, a []value) value { return nil }
+	externals["(*sync.Pool).Put"] = func(fr *frame, a []value) value {
+		if fr.i.pools == nil {
+			fr.i.pools = map[*value][]value{}
+		}
+		if x, ok := a[1].(iface); ok && x.t == nil {
+			return nil // Put(nil) is ignored
+		}
+		fr.i.pools[a[0].(*value)] = append(fr.i.pools[a[0].(*value)], a[1])
+		return nil
+	}
 	externals["(*sync.Once).Do"] = func(fr *frame, a []value) value {
 		o := a[0].(*value)
 		m := fr.i.mutex(o)
